@@ -42,7 +42,8 @@ OBLIGATIONS = {"dtype:int": 40, "dtype:uint": 40, "dtype:float": 30, "dtype:64bi
                "bigendian": 20, "dict": 50, "clone": 50, "clip": 30,
                "catchment-dict": 20, "catchment-dict:inlets": 10,
                "nodata:nondefault": 40, "values:extreme": 20, "layout-variant": 30,
-               "resave": 30, "clip:corner-on-edge": 10}
+               "resave": 30, "clip:corner-on-edge": 10,
+               "clip:dict-clone": 20}
 
 DTYPES = [np.int8, np.int16, np.int32, np.int64, np.uint8, np.uint16, np.uint32,
           np.uint64, np.float16, np.float32, np.float64]
@@ -101,9 +102,15 @@ def gen_nodata(rng, dtype):
     dt = np.dtype(dtype)
     if dt.kind in "iu":
         info = np.iinfo(dt)
-        return [0, info.max, info.min, int(rng.integers(info.min, info.max,
+        pool = [0, info.max, info.min, int(rng.integers(info.min, info.max,
                                                         dtype=dt, endpoint=True)),
-                min(info.max, 32767)][int(rng.integers(0, 5))]
+                min(info.max, 32767)]
+        if dt.itemsize == 8:
+            # integers around the limit of exact float64 representation
+            pool += [2 ** 53 + 1, 2 ** 53, 2 ** 53 + 2, 2 ** 53 - 1]
+            if dt.kind == "i":
+                pool += [-(2 ** 53) - 1, -(2 ** 53)]
+        return pool[int(rng.integers(0, len(pool)))]
     info = np.finfo(dt)
     return [0.0, -9999.0, float(info.max), float(info.min), float("nan"), -1.5,
             float(dt.type(0.1))][int(rng.integers(0, 7))]
@@ -441,6 +448,24 @@ def run_case(ctx, case):
                                .tolist()})
             ctx.check("clip.nodata", same_scalar(cg.nodata, gr.nodata),
                       "clip|nodata", case, None)
+            # a clipped grid (it remembers its parent) survives the dictionary export
+            # and clone like any other grid
+            ctx.tag("clip:dict-clone")
+            for how, fn_ in (("dict", lambda: g.Grid.from_dict(copy.deepcopy(cg.to_dict()))),
+                             ("clone", lambda: cg.clone())):
+                try:
+                    c2 = fn_()
+                    dd = geometry_equal(cg, c2)
+                    okc2 = not dd and (how == "dict" or
+                                       values_equal(np.asarray(c2.data),
+                                                    np.asarray(cg.data)))
+                    ctx.check("clip." + how, bool(okc2),
+                              f"clip|{how}-of-clipped-grid|" + "+".join(dd or ["values"]),
+                              case, lambda: {"differs": dd, "clip_shape": list(cg.shape),
+                                             "rebuilt_shape": list(c2.shape)})
+                except Exception as e:
+                    ctx.check("clip." + how, False, f"clip|{how}-of-clipped-grid|raises",
+                              case, {"exc": repr(e)})
         except KeyError:
             pass
         except Exception as e:
